@@ -198,6 +198,8 @@ def hazards(fds):
             classes.add("package_regex")
     for pkg, files in by_pkg.items():
         out_pkg = pkg != "google.protobuf"
+        if any(keyword.iskeyword(seg) for seg in pkg.split(".")):
+            classes.add("keyword_package_segment")
         names = []
         has_self_named = False     # some field with py_type == py_name in dir(builtins): `import builtins` is emitted
         msgs = []
@@ -915,6 +917,10 @@ def process_run(ctx, run, expect_clean, corr=True):
     return jobs
 
 
+PY_LEVEL = {"api_shadow", "builtin_shadow_generic", "typing_name_shadow", "invalid_class_name", "keyword_package_segment",
+            "builtins_import", "docstring_escape"}
+
+
 def run_coq_jobs(ctx, jobs):
     """model and specification against the imported packages, for a list of (run, expected conjuncts);
     the runs are spread over lib.JOBS Coq files evaluated in parallel"""
@@ -963,6 +969,8 @@ def run_coq_jobs(ctx, jobs):
             run = jobs[k][0]
             _, hz = hazards(run.fds)
             known = bool(run.tags or hz)
+            # classes whose effect is Python name binding / syntax, which the model does not describe
+            py_level = bool((set(run.tags) | hz) & PY_LEVEL)
             for i in idxs[:6]:
                 what = descr[i][0]
                 spec_side = what.startswith("specification")
@@ -970,6 +978,8 @@ def run_coq_jobs(ctx, jobs):
                 if known and (spec_side or what.startswith("names_ok") or what.startswith("model: output")):
                     continue
                 pkg = descr[i][2] if len(descr[i]) > 2 else None
+                if py_level and pkg is not None:
+                    continue
                 if known and pkg is not None and "import_error" in run.reflect["modules"].get(pkg, {}):
                     continue          # Python-level breakage of a known class: nothing to compare the model with
                 ctx.fail("corr", f"disagreement: {what}", input={"label": run.label, "case": list(descr[i]), "files": run.files},
